@@ -517,3 +517,171 @@ def canon_block(items):
     if len(flat) == 1:
         return flat[0]
     return ('block',) + tuple(flat)
+
+
+# ------------------------------------------------------------------ source analyses used by the monitors
+def subterms(t):
+    yield t
+    if isinstance(t, tuple):
+        for x in t[1:]:
+            if isinstance(x, tuple):
+                yield from subterms(x)
+
+
+def write_targets(t):
+    """observable keys a (sub)tree may write: register tokens, alias:X, local:name, mem, jump"""
+    out = set()
+    for n in subterms(t):
+        if not isinstance(n, tuple) or not n:
+            continue
+        k = n[0]
+        if k == 'assign' or k in ('post', 'pre'):
+            l = n[2] if k == 'assign' else n[2]
+            out |= _lvalue_keys(l)
+        elif k == 'decl' and len(n) == 4:
+            out.add('local:' + n[2])
+        elif k == 'store':
+            out.add('mem')
+        elif k == 'jump':
+            out.add('jump')
+        elif k == 'call':
+            if n[1] == 'set_usr_field':
+                out.add('alias:USR')
+            elif n[1] == 'fcirc_add' and len(n) > 3:
+                out |= _lvalue_keys(n[3])
+            elif n[1] == 'STORE_SLOT_CANCELLED':
+                out.add('cancelled')
+    return out
+
+
+def _lvalue_keys(l):
+    if not isinstance(l, tuple):
+        return set()
+    if l[0] == 'reg':
+        return {f"{l[1]}{l[2]}{'N' if l[3] else 'V'}"}
+    if l[0] == 'xreg':
+        return {l[1] + ('_NEW' if l[2] else '')}
+    if l[0] == 'alias':
+        return {'alias:' + l[1]}
+    if l[0] == 'id':
+        return {'local:' + l[1]}
+    return set()
+
+
+def reads_of(t):
+    out = set()
+    for n in subterms(t):
+        if isinstance(n, tuple) and n and n[0] in ('reg', 'xreg', 'alias', 'id'):
+            out |= _lvalue_keys(n)
+    return out
+
+
+def guard_targets(ast):
+    """Signatures of the listed findings about value-producing side effects in ?: arms.
+    Returns (stmt_expr_targets, hybrid_arm_targets): observables possibly affected.
+      stmt_expr_guard: statements of a statement-expression that is (a) an arm of a ?: nested in an arm of
+        another ?:, or (b) an arm of a ?: whose condition reads something the arms' statements write;
+      hybrid_arm_unguarded: a postfix ++/-- or a call that writes something, inside an arm of ?:.
+    In both cases the value of the ?: may be wrong too, so everything the enclosing statement writes is included."""
+    se_out, hy_out = set(), set()
+
+    def stmts_of(se):
+        return se[1:-1] if len(se) > 2 else ()
+
+    def walk(t, inside_arm, stmt_targets):
+        if not isinstance(t, tuple) or not t:
+            return
+        k = t[0]
+        if k in ('expr', 'decl', 'store', 'jump', 'return') and not inside_arm:
+            stmt_targets = write_targets_shallow(t)
+        if k == 'cond':
+            ses = [a for a in t[2:4] if isinstance(a, tuple) and a and a[0] == 'stmtexpr']
+            for se in ses:
+                w = set()
+                for s in stmts_of(se):
+                    w |= write_targets(s)
+                if w and (inside_arm or (w & reads_of(t[1]))):
+                    se_out.update(w | stmt_targets)
+                    for se2 in ses:
+                        for s in stmts_of(se2):
+                            se_out.update(write_targets(s))
+            for arm in t[2:4]:
+                for n in subterms(arm):
+                    if isinstance(n, tuple) and n and n[0] in ('post', 'pre', 'call') and not _inside_stmtexpr(arm, n):
+                        w = write_targets(n) if n[0] != 'call' else write_targets((n[0], n[1]) + tuple(n[2:]))
+                        if n[0] == 'call' and n[1] not in PURE_CALLS:
+                            w = w | {'call:' + n[1]}
+                        if w:
+                            hy_out.update(w | stmt_targets)
+            walk(t[1], inside_arm, stmt_targets)
+            walk(t[2], True, stmt_targets)
+            walk(t[3], True, stmt_targets)
+            return
+        for x in t[1:]:
+            walk(x, inside_arm, stmt_targets)
+
+    walk(ast, False, set())
+    return se_out, hy_out
+
+
+PURE_CALLS = {'clz32', 'clz64', 'clo32', 'clo64', 'revbit16', 'revbit32', 'revbit64', 'fbrev', 'conv_round', 'get_usr_field',
+              'extract32', 'extract64', 'sextract64', 'deposit32', 'deposit64', 'bswap16', 'bswap32', 'bswap64', 'REGFIELD',
+              'get_corresponding_CS', 'get_npc', 'sizeof', 'FLOAT', 'DOUBLE', 'fUNFLOAT', 'fUNDOUBLE'}
+
+
+def _inside_stmtexpr(root, node):
+    """is `node` located inside a statement-expression below root?"""
+    def rec(t, inside):
+        if t is node:
+            return inside
+        if not isinstance(t, tuple):
+            return None
+        for x in t[1:]:
+            r = rec(x, inside or (isinstance(t, tuple) and t and t[0] == 'stmtexpr'))
+            if r is not None:
+                return r
+        return None
+    return bool(rec(root, False))
+
+
+def write_targets_shallow(stmt):
+    """what a statement writes at its own level (assignment targets incl. nested assignments)"""
+    return write_targets(stmt)
+
+
+def stmtexpr_guard_targets(ast):
+    return guard_targets(ast)[0]
+
+
+def taint_closure(ast, seed):
+    """flow-insensitive closure: every observable that may depend on an observable in `seed`"""
+    T = set(seed)
+    changed = True
+
+    def visit(t):
+        nonlocal changed
+        if not isinstance(t, tuple) or not t:
+            return
+        k = t[0]
+        if k in ('if', 'for'):
+            conds = [t[1]] if k == 'if' else [x for x in t[1:4] if x is not None]
+            if any(reads_of(c) & T for c in conds if isinstance(c, tuple)):
+                w = write_targets(t)
+                if not w <= T:
+                    T.update(w)
+                    changed = True
+        if k in ('expr', 'decl', 'store', 'jump', 'return', 'assign'):
+            if reads_of(t) & T:
+                w = write_targets(t)
+                if not w <= T:
+                    T.update(w)
+                    changed = True
+        for x in t[1:]:
+            visit(x)
+
+    n = 0
+    while changed and n < 20:
+        changed = False
+        visit(ast)
+        n += 1
+    return T
